@@ -79,7 +79,7 @@ def _empty_enc(x):
 def _erase(x):
     if isinstance(x, list):
         x = [_erase(i) for i in x]
-        if len(x) == 2 and x[0] == "p" and _empty_enc(x):
+        if len(x) == 2 and x[0] == "p" and (_empty_enc(x) or x[1] == "nil"):
             return "nil"
     return x
 
